@@ -138,6 +138,8 @@ def strat_routes(tier):
         # decimal exponent of an overall amplitude factor (the transform is linear: a field of order 1e-12 or 1e+30 behaves like one of order 1)
         'mag': st.sampled_from([0, 0, 0, 0, -9, -12, 9, -30, 30, -100, 100]),
         'fftbackend': U.fft_backends,       # the FFT module behind the backend shim
+        # how the executors are handed the shift: "same broadcast rules apply as with samples" - one number stands for both axes
+        'shiftform': st.sampled_from(['tuple', 'tuple', 'tuple', 'scalar', 'npscalar'])   # (lists / arrays are unhashable cache keys: outside the accepted domain),
     })
 
 
@@ -170,6 +172,12 @@ def _check_routes(case, ctx):
     _reset()
     shape, out, Q, shift = case['shape'], case['out'], U.tup(case['Q']), tuple(case['shift'])
     prec, dtype, fwd, via = case['prec'], case['dtype'], case['fwd'], case['via']
+    sform = case.get('shiftform', 'tuple') if via == 'executor' else 'tuple'
+    if sform in ('scalar', 'npscalar'):
+        shift = (shift[0], shift[0])          # one number for both axes
+    shift_arg = {'tuple': shift, 'scalar': shift[0], 'npscalar': np.float64(shift[0]), 'list': list(shift), 'array': np.array(shift, dtype=float)}[sform]
+    if sform != 'tuple':
+        ctx.label('shift-given-as:' + sform)
     qn = case.get('qnear', 0)
     if qn:
         # snap Q to the nearest value with shape*Q integral, then move it off by the drawn relative amount
@@ -218,7 +226,7 @@ def _check_routes(case, ctx):
             outs = {}
             for method, ex in (('mdft', mdft), ('czt', czt)):
                 fn = getattr(ex, {('mdft', True): 'dft2', ('mdft', False): 'idft2', ('czt', True): 'czt2', ('czt', False): 'iczt2'}[(method, fwd)])
-                o = ctx.call(fn, f, Q, out_arg, shift)
+                o = ctx.call(fn, f, Q, out_arg, shift_arg)
                 outs[method] = o
                 sign = _cmp(ctx, o, ref_p, ref_m, shifted, tol, _geom_bucket(method, shape[0], shape[1], outp[0], outp[1], Q, shift),
                             '%s %s %s->%s Q=%r shift=%r %s prec%d' % (method, 'fwd' if fwd else 'inv', shape, outp, Q, shift, dtype, prec), _scale(f, Q))
